@@ -9,7 +9,21 @@ def nontrivial(prog_lines, answer_lines):
     return has_cmp and _c05._shape_ne(answer_lines) >= 2
 
 
+def compare_histogram(ctx):
+    """coverage statistics: relational operator x operand forms (v view, c view over pointer-to-const, r array_ref, a owning array)"""
+    import glob, os
+    hist = {}
+    for f in glob.glob(os.path.join(ctx["build"], "prog.store.c07.*.txt")):
+        for l in open(f):
+            w = l.split()
+            if len(w) == 4 and w[0] == "q" and w[1] in ("eq", "ne", "lt", "le", "gt", "ge"):
+                k = w[1] + ":" + w[2][0] + w[3][0]
+                hist[k] = hist.get(k, 0) + 1
+    return {"stats": {"queries_per_operator_and_operand_forms": dict(sorted(hist.items()))}, "violations": []}
+
+
 PROP = {
+    "hooks": ["compare_histogram"],
     "lean_targets": ["MultiProofs.C07"],
     "lean_module": "MultiProofs.C07",
     "theorems": [
